@@ -66,6 +66,8 @@ prop("C18", [H("H18_cancel", quick={"wall": "100s"})])
 prop("C20", [H("H20_refs", common={"param": "maxOps=6"}, quick={"wall": "150s", "shards": 8}, thorough={"wall": "900s", "shards": 16, "param": "maxOps=8"}), H("H20_openfail"), H("H20_lockset", common={"race": True})])
 prop("C10", [H("H10_effects", quick={"wall": "140s", "shards": 4}), H("H10_seq", quick={"wall": "140s", "shards": 16, "param": "aMax=1,bMax=1"}, thorough={"wall": "1500s", "shards": 16, "param": "aMax=2,bMax=2"})])
 prop("C09", [H("H06_large", quick={"wall": "140s", "shards": 6, "shard-depth": 3, "param": "nBlocks=3,nProbes=2"}, thorough={"skip": True}), H("K1_chunksize"), H("K1_chunktable"), H("K7_footer"), H("K6_boundaries"),
+             # files written by the pinned release (harness/corpus_data.go, frozen) read by the current code
+             H("H09_corpus"),
              H("H09_layout", quick={"wall": "140s", "shards": 8, "param": "maxDocs=1,lite=1"}, thorough={"wall": "1500s", "shards": 16, "param": "maxDocs=2"}),
              # one number at a time full width (all ten varint length classes of every layout element)
              H("H09_layout", quick={"wall": "140s", "shards": 8, "param": "maxDocs=1,lite=1,wide=12"}, thorough={"wall": "1500s", "shards": 16, "param": "maxDocs=2,lite=1,wide=24"}),
